@@ -574,3 +574,45 @@ macro_rules! of_h {
 }
 of_h!(procfs_open_follow_link, P_OK);
 of_h!(procfs_open_follow_notlink, P_FAIL);
+
+// ---------------------------------------------------------------------------
+// C10: handle construction under fd exhaustion, and the first use of the global handle
+
+macro_rules! new_h {
+    ($name:ident, $body:block) => {
+        #[kani::proof]
+        #[kani::unwind(8)]
+        #[kani::stub(crate::syscalls::fsopen, k_fsopen)]
+        #[kani::stub(crate::syscalls::fsconfig_set_string, k_fsconfig_set_string)]
+        #[kani::stub(crate::syscalls::fsconfig_create, k_fsconfig_create)]
+        #[kani::stub(crate::syscalls::fsmount, k_fsmount)]
+        #[kani::stub(crate::syscalls::open_tree, k_open_tree)]
+        #[kani::stub(crate::syscalls::openat_follow, k_openat_follow)]
+        #[kani::stub(alloc::fmt::format, k_format)]
+        fn $name() $body
+    };
+}
+
+new_h!(procfs_new_all_fail, {
+    install_close_model();
+    reset(3);
+    kmut().all_fail = true;
+    let r = ProcfsHandle::new();
+    assert!(r.is_err(), "handle reported although every constructor failed");
+    std::mem::forget(r);
+    let k = kref();
+    // fsopen -> open_tree -> plain open, each tried once; nothing left open
+    assert!(k.count(C_FSOPEN) == 1 && k.count(C_OPEN_TREE) == 1 && k.count(C_OPENAT) == 1);
+    assert!(k.n_open() == 0 && !k.any_violation());
+    kani::cover!(true, "reached");
+});
+
+new_h!(procfs_global_handle_init_fault, {
+    install_close_model();
+    reset(3);
+    kmut().all_fail = true;
+    // first use of the process-wide handle while no descriptor can be opened
+    let h: &ProcfsHandle = &GLOBAL_PROCFS_HANDLE;
+    let _ = h.is_subset;
+    kani::cover!(true, "reached");
+});
